@@ -35,9 +35,14 @@ theorem parseStep_frame (cu : Culture) (l : Text) (b b' : Bucket) (r : Text) (s 
     simp only [parseStep] at h
     split at h
     · cases h
-    · split at h
-      · injection h with h; injection h with h; injection h with h _; rw [← h]
-      · cases h
+    · injection h with h; injection h with h; injection h with h _; rw [← h]
+      exact set_other b .calendar x _ (by simpa [stepSets] using hx)
+  | eraC cal =>
+    simp only [parseStep] at h
+    split at h
+    · injection h with h; injection h with h; injection h with h _; rw [← h]
+      exact set_other b .era x _ (by simpa [stepSets] using hx)
+    · cases h
   | num g st count maxCount minV maxV =>
     simp only [parseStep] at h
     split at h
@@ -363,7 +368,7 @@ theorem parseSegmented_valid (tm : Tmpl) (htm : TmplOK tm) (cu : Culture) (used 
     ∃ y m d nod, v = [y, m, d, nod] ∧ validDate y m d ∧ 0 ≤ nod ∧ nod < 86400000000000 := by
   unfold segWF at hwf
   simp only [Bool.and_eq_true, Bool.or_eq_true, Bool.not_eq_true'] at hwf
-  obtain ⟨⟨⟨⟨⟨hw, hs⟩, hcu⟩, hin⟩, hD⟩, hT⟩ := hwf
+  obtain ⟨⟨⟨⟨⟨⟨hw, hs⟩, hcu⟩, hin⟩, hD⟩, hT⟩, _⟩ := hwf
   have hD1 : hasAny used F.embeddedDate = true → segs.any isDateSeg = true ∧ (plainSteps segs).all noDateSetter = true := by
     intro hE
     rcases hD with e | e
@@ -408,10 +413,10 @@ theorem parseSegmented_valid (tm : Tmpl) (htm : TmplOK tm) (cu : Culture) (used 
 
 /-- the same through `parsePat` -/
 theorem datetime_segmented_success_valid (tm : Tmpl) (htm : TmplOK tm) (cu : Culture) (used : Nat) (segs : List Seg)
-    (hwf : segWF cu used segs = true) (l : Text) (v : List Int)
+    (hwf : segWF cu used segs = true) (hnc : segsUseCalendar segs = false) (l : Text) (v : List Int)
     (h : parsePat (.datetime tm) l (.segmented cu used segs) = .ok (some v)) :
     ∃ y m d nod, v = [y, m, d, nod] ∧ validDate y m d ∧ 0 ≤ nod ∧ nod < 86400000000000 := by
-  simp only [parsePat] at h
+  simp only [parsePat, hnc, Bool.false_eq_true, if_false] at h
   exact parseSegmented_valid tm htm cu used segs hwf l v h
 
 /-! ## every pattern with embedded parts that `compileDateTime` builds passes `segWF` -/
@@ -623,7 +628,7 @@ theorem compileSegmented_segWF (cu : Culture) (hcu : cu.monthHeadsEmpty = true) 
         unfold segWF
         rw [hp]
         simp only [Bool.and_eq_true, Bool.or_eq_true, Bool.not_eq_true']
-        refine ⟨⟨⟨⟨⟨hi.inv.1, hi.inv.2⟩, hcu⟩, ?_⟩, ?_⟩, ?_⟩
+        refine ⟨⟨⟨⟨⟨⟨hi.inv.1, hi.inv.2⟩, hcu⟩, ?_⟩, ?_⟩, ?_⟩, ?_⟩
         · rw [List.all_append, hi.inner]; rfl
         · by_cases hE : hasAny st.used F.embeddedDate = true
           · right
@@ -653,6 +658,17 @@ theorem compileSegmented_segWF (cu : Culture) (hcu : cu.monthHeadsEmpty = true) 
             have n3 := no_setter_of_mask _ _ _ hi.sb hm .seconds (by decide) (by decide) s hs
             have n4 := no_setter_of_mask _ _ _ hi.sb hm .fraction (by decide) (by decide) s hs
             simp [n1, n2, n3, n4]
+          · left; simpa using hE
+        · by_cases hE : hasAny st.used F.embeddedDate = true
+          · right
+            have hm : st.used &&& (F.allDateFields ^^^ F.embeddedDate) = 0 := by
+              by_cases hz : st.used &&& (F.allDateFields ^^^ F.embeddedDate) = 0
+              · exact hz
+              · exact absurd ⟨by simpa [hasAny] using hE, hz⟩ b1
+            rw [List.all_eq_true]
+            intro s hs
+            have n1 := no_setter_of_mask _ _ _ hi.sb hm .calendar (by decide) (by decide) s hs
+            simp [n1]
           · left; simpa using hE
 
 theorem steppedOf_not_segmented (r : R Compiled) (cu' : Culture) (used : Nat) (segs : List Seg)
@@ -690,7 +706,7 @@ theorem compileDateTime_segWF (tm : Tmpl) (cu : Culture) (hcu : cu.monthHeadsEmp
     valid ISO template value, in whatever culture record whose month tables start with the empty entry, a successful
     parse of any text carries a valid date and a time inside the day -/
 theorem datetime_success_valid_all (tm : Tmpl) (htm : TmplOK tm) (cu : Culture) (hcu : cu.monthHeadsEmpty = true)
-    (ptext : Text) (p : Pat) (hp : compileDateTime tm cu ptext = .ok p) (l : Text) (v : List Int)
+    (ptext : Text) (p : Pat) (hp : compileDateTime tm cu ptext = .ok p) (hnc : patNoCal p = true) (l : Text) (v : List Int)
     (h : parsePat (.datetime (effTmpl tm ptext)) l p = .ok (some v)) :
     ∃ y m d nod, v = [y, m, d, nod] ∧ validDate y m d ∧ 0 ≤ nod ∧ nod < 86400000000000 := by
   have htm' : TmplOK (effTmpl tm ptext) := by
@@ -702,18 +718,18 @@ theorem datetime_success_valid_all (tm : Tmpl) (htm : TmplOK tm) (cu : Culture) 
     · exact htm
   rcases compileDateTime_wf tm cu hcu ptext p hp with hw | ⟨cu', used, segs, rfl⟩
   · exact datetime_success_valid tm htm cu hcu ptext p hp
-      (by obtain ⟨c, rfl, _⟩ := hw; intro _ _ _ e; cases e) l v h
+      (by obtain ⟨c, rfl, _⟩ := hw; intro _ _ _ e; cases e) hnc l v h
   · exact datetime_segmented_success_valid _ htm' cu' used segs
-      (compileDateTime_segWF tm cu hcu ptext cu' used segs hp) l v h
+      (compileDateTime_segWF tm cu hcu ptext cu' used segs hp) (by simpa [patNoCal] using hnc) l v h
 
 /-- **success_value_valid** for Instant patterns, embedded patterns included (the parsed UTC date-time) -/
 theorem instant_success_valid_all (tm : Tmpl) (htm : TmplOK tm) (cu : Culture) (hcu : cu.monthHeadsEmpty = true)
-    (ptext : Text) (p : Pat) (hp : compileInstant tm cu ptext = .ok p) (l : Text) (v : List Int)
+    (ptext : Text) (p : Pat) (hp : compileInstant tm cu ptext = .ok p) (hnc : patNoCal p = true) (l : Text) (v : List Int)
     (h : parsePat (.datetime tm) l p = .ok (some v)) :
     ∃ y m d nod, v = [y, m, d, nod] ∧ validDate y m d ∧ 0 ≤ nod ∧ nod < 86400000000000 := by
   rcases compileInstant_wf tm cu hcu ptext p hp with hw | ⟨cu', used, segs, rfl⟩
   · exact instant_success_valid tm htm cu hcu ptext p hp
-      (by obtain ⟨c, rfl, _⟩ := hw; intro _ _ _ e; cases e) l v h
+      (by obtain ⟨c, rfl, _⟩ := hw; intro _ _ _ e; cases e) hnc l v h
   · have hs : segWF cu' used segs = true := by
       unfold compileInstant at hp
       split at hp
@@ -722,7 +738,7 @@ theorem instant_success_valid_all (tm : Tmpl) (htm : TmplOK tm) (cu : Culture) (
         · exact compileDTText_segWF tm cu hcu _ cu' used segs hp
         · cases hp
       · exact compileDTText_segWF tm cu hcu _ cu' used segs hp
-    exact datetime_segmented_success_valid tm htm cu' used segs hs l v h
+    exact datetime_segmented_success_valid tm htm cu' used segs hs (by simpa [patNoCal] using hnc) l v h
 
 /-- `segWF` is satisfiable: `ld<uuuu-MM-dd> lt<HH:mm>` and `ld<d MMMM yyyy> 'at' HH:mm` in the invariant culture -/
 example : (match compileDateTime Tmpl.default invariantCulture "ld<uuuu-MM-dd> lt<HH:mm>".toList with
